@@ -211,7 +211,11 @@ def check_c19(prog, rep, tier, cfg):
     R = "C19.a"
     b = prog.body(PC + "get_config_object_from_file")
     if rep.check(b is not None, R, "anchor:get_config_object_from_file", "get_config_object_from_file not found"):
+        from util import family_bodies as _fam
         fam_b = [b] + [x for x in prog.bodies.values() if x.npath.startswith(b.npath + "::")]
+        for x, _a, _c in _fam(prog, b):           # closures, function items handed to adapters, private helpers of the same impl
+            if x not in fam_b and x.npath.startswith(PC):
+                fam_b.append(x)
         cc = [c.callee for x in fam_b for c in x.calls() if (c.callee or "").startswith("config::")]
         rep.check(set(cc) == {"config::config::Config::builder", "config::file::File::format", "config::builder::ConfigBuilder::add_source", "config::builder::ConfigBuilder::build",
                               "config::builder::ConfigBuilder::set_override", "config::config::Config::try_deserialize"}, R, "builder-calls",
@@ -229,19 +233,32 @@ def check_c19(prog, rep, tier, cfg):
         if not so and len(so_cl) == 1:
             # iterator form: overrides.iter().filter_map(Set -> Some((key, val)), Help -> None).try_fold(builder, |b, (k, v)| b.set_override(k, v))?
             cl, sc = so_cl[0]
-            tf = [c for c in b.calls() if (c.callee or "").split("::")[-1] in ("try_fold", "try_for_each") and any(a["k"] in ("copy", "move") and not a["place"]["p"] and norm(b.locals[a["place"]["l"]].get("closure") or "") == cl.npath for a in c.args)]
+            tf = [c for c in b.calls() if (c.callee or "").split("::")[-1] in ("try_fold", "try_for_each") and any(
+                (a["k"] in ("copy", "move") and not a["place"]["p"] and norm(b.locals[a["place"]["l"]].get("closure") or "") == cl.npath) or
+                (a["k"] == "const" and norm(a.get("fn") or "") == cl.npath) for a in c.args)]
             ok_it = len(tf) == 1
             why = "set_override is not the body of one try_fold / try_for_each over the overrides"
+            ident = {"core::slice::iter", "core::iter::traits::iterator::Iterator::filter_map", "core::iter::traits::iterator::Iterator::map",
+                     "core::iter::traits::collect::IntoIterator::into_iter", "core::ops::deref::Deref::deref"}
+            sel_bodies = [b]            # where the items to apply are selected: here, or in a helper that returns the iterator
             if ok_it:
-                chain = Origins(b, extra_identity={"core::slice::iter", "core::iter::traits::iterator::Iterator::filter_map", "core::iter::traits::iterator::Iterator::map",
-                                                   "core::iter::traits::collect::IntoIterator::into_iter", "core::ops::deref::Deref::deref"}).of_operand(tf[0].args[0])
+                chain = Origins(b, extra_identity=ident).of_operand(tf[0].args[0])
+                expanded = set()
+                for x in chain:
+                    hb = prog.body(x[2]) if x[0] == "call" else None
+                    if hb is not None and hb in fam_b and not hb.loops():
+                        sel_bodies.append(hb)
+                        expanded |= set(Origins(hb, extra_identity=ident).of_place({"l": 0, "p": []}))
+                    else:
+                        expanded.add(x)
+                chain = expanded
                 ok_it = bool(chain) and all(x[0] == "param" and "overrides" in str(x[2]) for x in chain)
                 why = "the folded iterator is not self.overrides, element-wise (%s)" % sorted(map(str, chain))
             if ok_it:
                 # every Set item is handed on by the selecting closure (a filter_map that drops a Set item would skip an override)
-                fms = [c for c in b.calls() if (c.callee or "").endswith("Iterator::filter_map") or (c.callee or "").endswith("Iterator::filter")]
-                for fm in fms:
-                    cn = b.locals[fm.args[1]["place"]["l"]].get("closure") if fm.args[1]["k"] in ("copy", "move") else None
+                fms = [(sb, c) for sb in sel_bodies for c in sb.calls() if (c.callee or "").endswith("Iterator::filter_map") or (c.callee or "").endswith("Iterator::filter")]
+                for sb, fm in fms:
+                    cn = sb.locals[fm.args[1]["place"]["l"]].get("closure") if fm.args[1]["k"] in ("copy", "move") else None
                     fb_ = prog.body(norm(cn)) if cn else None
                     good = False
                     if fb_ is not None and not fb_.loops():
